@@ -160,6 +160,60 @@ pub fn arb_value(cfg: ValueCfg) -> BoxedStrategy<RefValue> {
 	}
 }
 
+/// Long keys that share prefixes and cross the 16-byte inline capacity.
+pub fn arb_long_key() -> BoxedStrategy<String> {
+	prop_oneof![
+		3 => (0u32..40).prop_map(|i| format!("a-rather-long-key-number-{i}")),
+		2 => (0u32..12).prop_map(|i| format!("sixteen-bytes-{i:03}")),
+		2 => (0u32..30).prop_map(|i| format!("k{i}")),
+		1 => vec(arb_char(), 17..60).prop_map(|v| v.into_iter().collect::<String>()),
+		1 => arb_key(true),
+	]
+	.boxed()
+}
+
+/// Values beyond the small envelope: wide containers (tens to hundreds of
+/// members, forcing several growth cycles of the key index), deep chains, long
+/// strings, arrays of records.
+pub fn arb_large_value(dups: bool) -> BoxedStrategy<RefValue> {
+	let small = arb_value(ValueCfg { depth: 2, width: 3, dup_keys: dups, big_numbers: false });
+	let scalar = arb_leaf(false);
+	let s = prop_oneof![
+		// wide object
+		3 => vec((arb_long_key(), scalar.clone()), 9..120).prop_map(RefValue::Obj),
+		// wide array
+		2 => vec(scalar.clone(), 9..200).prop_map(RefValue::Arr),
+		// array of records
+		2 => vec(vec((arb_long_key(), small.clone()), 3..12).prop_map(RefValue::Obj), 5..30).prop_map(RefValue::Arr),
+		// deep chain around a small value
+		2 => (small.clone(), vec(any::<bool>(), 6..48)).prop_map(|(inner, kinds)| {
+			let mut v = inner;
+			for (i, is_obj) in kinds.into_iter().enumerate() {
+				v = if is_obj { RefValue::Obj(vec![(format!("level{i}"), v)]) } else { RefValue::Arr(vec![v]) };
+			}
+			v
+		}),
+		// long strings (also as a key)
+		1 => (vec(arb_char(), 40..400), vec(arb_char(), 17..120)).prop_map(|(a, b)| {
+			let a: String = a.into_iter().collect();
+			let b: String = b.into_iter().collect();
+			RefValue::Obj(vec![(b, RefValue::Str(a))])
+		}),
+		// object of wide objects
+		1 => vec((arb_long_key(), vec((arb_long_key(), scalar), 9..40).prop_map(RefValue::Obj)), 2..6).prop_map(RefValue::Obj),
+	];
+	if dups {
+		s.boxed()
+	} else {
+		s.prop_map(dedup_keys).boxed()
+	}
+}
+
+/// The usual mix for document-level properties: mostly medium values, some large ones.
+pub fn arb_doc_value(cfg: ValueCfg) -> BoxedStrategy<RefValue> {
+	prop_oneof![6 => arb_value(cfg), 1 => arb_large_value(cfg.dup_keys)].boxed()
+}
+
 /// A value whose root is a container (more interesting for printers).
 pub fn arb_container_value(cfg: ValueCfg) -> BoxedStrategy<RefValue> {
 	let inner = arb_value(ValueCfg {
